@@ -18,14 +18,14 @@ def encode(obj):
     return json.dumps(preprocess(encoded))
 
 
-def decode(cache, records_per_chunk):
+def decode(cache, records_per_chunk, fs=None):
     try:
         partially_decoded = json.loads(cache, object_hook=postprocess)
     except json.JSONDecodeError as e:
         # e.g. a cache file left behind by an interrupted write
         raise CachingError("cannot decode the cache: not a complete JSON document") from e
 
-    return decode_hierarchy(partially_decoded, records_per_chunk=records_per_chunk)
+    return decode_hierarchy(partially_decoded, records_per_chunk=records_per_chunk, fs=fs)
 
 
 def read_cache(mapper, path, records_per_chunk):
@@ -33,10 +33,12 @@ def read_cache(mapper, path, records_per_chunk):
     local = local_cache_location(mapper.root, path)
 
     if local.is_file():
-        return decode(local.read_text(), records_per_chunk=records_per_chunk)
+        return decode(local.read_text(), records_per_chunk=records_per_chunk, fs=mapper.fs)
 
     if remote in mapper:
-        return decode(mapper[remote].decode(), records_per_chunk=records_per_chunk)
+        return decode(
+            mapper[remote].decode(), records_per_chunk=records_per_chunk, fs=mapper.fs
+        )
 
     raise CachingError(f"no cache found for {path}")
 
